@@ -94,6 +94,13 @@ def u11_worker(unit, emit):
         spots = spots if len(spots) <= p['spots'] else sorted(rnd.sample(spots, p['spots']))
         for i in spots:
             rdel = lib.call(mod.validate, base[:i] + base[i + 1:])
+            if own and i == spots[0]:
+                rd = [slim(lib.call(mod.validate, base[:i] + d + base[i + 1:])) for d in '0123456789']
+                for ch in own[:60]:
+                    r1 = lib.call(mod.validate, base[:i] + ch + base[i + 1:])
+                    emit.trace([{'kind': 'u12', 'm': name, 'ch': ord(ch), 'dec': unicodedata.decimal(ch, -1), 'r1': slim(r1), 'rd': rd, 'rdel': slim(rdel)}],
+                               {'m': name, 'w': base[:i] + ch + base[i + 1:], 'base': base, 'how': 'own table character U+%04X at digit position %d against all ten digits' % (ord(ch), i), 'site': r1['site']})
+                    emit.count('u11')
             for ch in chars:
                 x = base[:i] + ch + base[i + 1:]
                 r1 = lib.call(mod.validate, x)
@@ -192,7 +199,7 @@ def main():
     shards11 = chk.drive([(name, p11) for name, _ in lib.modules()], u11_worker)
     extra11 = run.merge_extra(shards11)
     chk.cov['u11_events'] = extra11.get('u11', 0)
-    rej = chk.validate('Trace_Clean', shards11, own_clauses={'U11'}, label='foreign characters in digit positions, every module')
+    rej = chk.validate('Trace_Clean', shards11, own_clauses={'U11', 'U12'}, label='foreign characters in digit positions, every module')
     chk.report(rej)
     n_cp = len([e for e in evs if e['kind'] == 'cp'])
     return chk.finish(samples=[{'map_entries': {k: len(v) for k, v in sorted(sources.items())}}] + first_meta(shards, 2),
